@@ -779,6 +779,15 @@ pub fn call_attrs<O: Attrs + ?Sized>(rv: &mut Recv<O>, mi: usize, a: &mut A) -> 
         _ => Ret::NoSuchMethod,
     }
 }
+pub const DUP: [Meth; 3] = [m("dup"), m("split"), m("dval")];
+pub fn call_dup<O: Dup + IntoDyn<KDup> + 'static>(rv: &mut Recv<O>, mi: usize, a: &mut A) -> Ret {
+    match mi {
+        0 => Ret::Obj(rv.r().dup().into_dyn()),
+        1 => Ret::Obj(need_mut!(rv).split(a.u(0)).into_dyn()),
+        2 => Ret::U(rv.r().dval()),
+        _ => Ret::NoSuchMethod,
+    }
+}
 pub const LIFE: [Meth; 3] = [m("l_get"), m("l_eq"), m("l_set")];
 pub fn call_life<'x, O: Life<'x, u64> + ?Sized>(rv: &mut Recv<O>, mi: usize, a: &mut A) -> Ret {
     match mi {
@@ -868,7 +877,7 @@ pub fn call_keydumper<O: KeyDumper + ?Sized>(rv: &mut Recv<O>, mi: usize, a: &mu
 
 // Children -----------------------------------------------------------------------------------
 
-use crate::dynobj::{IntoDyn, KBasic, KGrpA};
+use crate::dynobj::{IntoDyn, KBasic, KDup, KGrpA};
 
 pub const CHILDREN: [Meth; 9] = [m("c_owned"), m("c_owned_mut"), m("c_ref"), m("c_mut"), m("c_group"), m("c_group_ref"), m("c_group_mut"), m("c_count"), m("c_nest")];
 
